@@ -1,5 +1,5 @@
 // C03 L-api oracle + L-trace: random target-queue hierarchies with a serial bottom (depth and fan-in random, serial and
-// concurrent inner queues, some retargeted while inactive); async / sync / barrier_async at every level from several
+// concurrent inner queues, some retargeted while inactive); async / sync / barrier_async / async_and_wait / barrier_async_and_wait at every level from several
 // threads; at most one item of the whole hierarchy may run at a time, and every serial member delivers the items of one
 // submitting thread in submission order. Every dq_state transition of every queue is recorded for replay through the
 // single-lane model (projection theorem). Output format as harness/tr_lane.c.
@@ -43,11 +43,18 @@ static void work(void *c){ it2 *it = c;
   atomic_fetch_sub(&in_flight,1); atomic_fetch_add(&done_items,1); free(it); }
 static int nops;
 extern dispatch_queue_t dispatch_workloop_create(const char *label);
+void dispatch_async_and_wait_f(dispatch_queue_t, void*, dispatch_function_t);
+void dispatch_barrier_async_and_wait_f(dispatch_queue_t, void*, dispatch_function_t);
 static void *client(void *a){ tix = (int)(intptr_t)a; long seq[MAXQ] = {0};
   for (int i=0;i<nops;i++){ int q = rnd()%nq; it2 *it = malloc(sizeof *it); it->q=q; it->thr=tix; it->seq=++seq[q];
-    int k=(int)(rnd()%4); if(wl_bottom && q==0) k=0;      // a workloop takes asynchronous submissions only
-    switch (k){ case 0: case 1: dispatch_async_f(Q[q], it, work); break; case 2: dispatch_sync_f(Q[q], it, work); break; case 3: dispatch_barrier_async_f(Q[q], it, work); break; } }
+    int k=(int)(rnd()%6); if(wl_bottom && q==0) k=0;      // a workloop takes asynchronous submissions only
+    switch (k){ case 0: case 1: dispatch_async_f(Q[q], it, work); break; case 2: dispatch_sync_f(Q[q], it, work); break; case 3: dispatch_barrier_async_f(Q[q], it, work); break;
+      // async_and_wait: the item may be run inline by whichever thread drains a level below; the caller then completes only the levels above
+      case 4: dispatch_async_and_wait_f(Q[q], it, work); break; default: dispatch_barrier_async_and_wait_f(Q[q], it, work); break; } }
   return NULL; }
+// no item finished for 20 s while submitters are still blocked: a synchronous submission never returned / items were stranded
+static void *watchdog(void *a){ int total=(int)(intptr_t)a; int last=-1, same=0; for(;;){ usleep(200000); int d=atomic_load(&done_items); if(d>=total) return 0; if(d==last) same++; else same=0; last=d;
+  if(same>=100){ _dispatch_verif_atomic_cb=0; if(viol) printf("ORACLE VIOL seed=%lu %s\n",(unsigned long)seed,vmsg); printf("STUCK %d of %d items done: no item of the hierarchy finished for 20 s\n", d, total); dump(); _exit(3); } } return 0; }
 #include <signal.h>
 static void on_crash(int sig){ char b[200]; int n=snprintf(b,sizeof b,"ORACLE VIOL seed=%lu the library trapped or crashed (signal %d) while draining the hierarchy\n",(unsigned long)seed,sig); if(n>0) (void)!write(1,b,(size_t)n); _exit(1); }
 int main(int argc, char **argv){
@@ -64,6 +71,7 @@ int main(int argc, char **argv){
   evs = calloc(MAXEV, sizeof(ev_t));
   for (int i=wl_bottom;i<nq;i++) printf("Q %d width %d stateoff %ld\n", i, serial[i]?1:4094, (long)((char*)_dispatch_verif_queue_state_addr(Q[i])-(char*)Q[i]));
   _dispatch_verif_atomic_cb = cb;
+  pthread_t wd; pthread_create(&wd,0,watchdog,(void*)(intptr_t)(nthr*nops));
   pthread_t th[64]; for (int i=0;i<nthr;i++) pthread_create(&th[i],0,client,(void*)(intptr_t)i);
   for (int i=0;i<nthr;i++) pthread_join(th[i],0);
   for (int w=0; w<30000 && atomic_load(&done_items) < nthr*nops; w++) usleep(1000);
